@@ -945,7 +945,16 @@ async fn dispatch(op: String, a: Value) -> Value {
                 "audit_map" => run!(LruHashMap, [u32; 2], [u32; 5], 2, 5),
                 "policy_map" => run!(HashMap, [u32; 6], [u32; 6], 6, 6),
                 "skip_process_map" => run!(HashMap, [u32; 1], [u32; 1], 1, 1),
-                _ => run!(LruHashMap, [u32; 2], [u32; 6], 2, 6),
+                // local_map is internal to the kernel program (hand-off between its two hooks): its value layout is not fixed by
+                // anything outside of it, so the size is taken from the loaded map
+                _ => match md.info().map(|i| i.value_size()).unwrap_or(24) / 4 {
+                    4 => run!(LruHashMap, [u32; 2], [u32; 4], 2, 4),
+                    5 => run!(LruHashMap, [u32; 2], [u32; 5], 2, 5),
+                    6 => run!(LruHashMap, [u32; 2], [u32; 6], 2, 6),
+                    7 => run!(LruHashMap, [u32; 2], [u32; 7], 2, 7),
+                    8 => run!(LruHashMap, [u32; 2], [u32; 8], 2, 8),
+                    _ => json!({"err": "unsupported local_map value size"}),
+                },
             }
         }
         "delay_counts" => {
